@@ -61,6 +61,10 @@ def run(prog, prefix="mpq_", rule="R-BASISDIM"):
         tests = _mentions_counts(f, pname)
         for b, i, c in f.calls():
             g = prog.resolve(f, c[1]) if c[1] else None
+            if g is not None and g.name[:4] in ("dbl_", "mpf_"):
+                g = prog.funcs.get("mpq_" + g.name[4:]) or g      # the three instantiations come from one template: judge the rational twin
+            elif g is None and c[1] and c[1][:4] in ("dbl_", "mpf_"):
+                g = prog.funcs.get("mpq_" + c[1][4:])
             if g is None or not g.blocks:
                 continue
             pos = [j for j, a in enumerate(c[3]) if is_var(strip(a), name=pname)]
@@ -129,7 +133,8 @@ def run(prog, prefix="mpq_", rule="R-BASISDIM"):
                 res.nontrivial += 1
                 got = set()
                 for d, flds in tests.items():
-                    if d in dom.get(b["id"], ()) and d != b["id"]:
+                    # the comparison must dominate the conversion (the only way the caller's record gets into the local one) or the use
+                    if (d in dom.get(fb, ()) and d != fb) or (d in dom.get(b["id"], ()) and d != b["id"]):
                         got |= flds
                 if got == {"qsbasis::nstruct", "qsbasis::nrows"}:
                     res.sample({"site": "%s %s: %s" % (short_loc(c[4]), f.name, show(c)[:60]), "verdict": "both counts compared before the converted record is used"}, limit=8)
